@@ -5,6 +5,8 @@ CONSTANTS
   AB_H = 7
   AB_N = 4
   U_H = 4
+  RAW_H = 4
+  RAW_N = 2
   U_N = 2
 INVARIANTS TypeOK ReadsInBounds Refines ResultInside
 POSTCONDITION Emit
